@@ -256,6 +256,66 @@ impl T {
     }
 }
 
+/// Names used as macro loop variables anywhere in the tree (stored programs are evaluated under
+/// the bindings of the referencing site, so they see these too).
+pub fn loop_vars(t: &T, out: &mut Vec<String>) {
+    let mut go = |x: &T, out: &mut Vec<String>| loop_vars(x, out);
+    match t {
+        T::Lit(_) | T::Id(_) => {}
+        T::Un { e, .. } | T::Paren(e) | T::Sel { e, .. } => go(e, out),
+        T::Bin { l, r, .. } => {
+            go(l, out);
+            go(r, out)
+        }
+        T::Tern { c, a, b } => {
+            go(c, out);
+            go(a, out);
+            go(b, out)
+        }
+        T::List(es) => es.iter().for_each(|e| go(e, out)),
+        T::Map(kv) => kv.iter().for_each(|(k, v)| {
+            go(k, out);
+            go(v, out)
+        }),
+        T::Idx { e, i } => {
+            go(e, out);
+            go(i, out)
+        }
+        T::Call { args, .. } => args.iter().for_each(|e| go(e, out)),
+        T::MCall { r, f, args } => {
+            go(r, out);
+            let nvars = match f.as_str() {
+                "all" | "exists" | "exists_one" | "filter" | "map" => 1,
+                "reduce" => 2,
+                _ => 0,
+            };
+            for (i, a) in args.iter().enumerate() {
+                if i < nvars {
+                    if let T::Id(n) = a {
+                        out.push(n.clone());
+                        continue;
+                    }
+                }
+                go(a, out);
+            }
+        }
+        T::FStr(segs) => segs.iter().for_each(|s| {
+            if let Seg::Expr(e) = s {
+                go(e, out)
+            }
+        }),
+        T::Match { e, cases } => {
+            go(e, out);
+            for (p, e) in cases {
+                if let Pat::Cmp(_, v) = p {
+                    go(v, out)
+                }
+                go(e, out)
+            }
+        }
+    }
+}
+
 /// A value as a literal expression tree, if it has one.
 pub fn value_as_tree(v: &V) -> Option<T> {
     Some(match v {
@@ -555,11 +615,13 @@ impl<'a> Render<'a> {
                         }
                         Seg::Expr(e) => {
                             out.push('{');
+                            out.push(' '); // "{{" would be an escaped brace
                             let mut inner = String::new();
                             // embedded expressions must not contain the quote or unbalanced braces
                             let mut r = Render { parens: Parens::Min, ws: false, rng: self.rng, quote: '"' };
                             r.expr(e, &mut inner);
                             out.push_str(&inner);
+                            out.push(' ');
                             out.push('}');
                         }
                     }
